@@ -1,7 +1,7 @@
 """Property registry: which arms decide which property, tiers, and evidence metadata."""
 from types import SimpleNamespace as NS
 
-from .checks import c19a, c19b, c19c, c15, c16, c05s, c05h, c03, c13s, c13g, c04, c20
+from .checks import c19a, c19b, c19c, c15, c16, c16s, c05s, c05h, c03, c13s, c13g, c04, c20
 from .refmodel import bitset as _bitset
 
 REAL_COMMON = ['all of elementpath (imported from /repo working tree)', 'CPython re/decimal/json/expat',
@@ -51,7 +51,7 @@ register(
 
 register(
     ID='C16', LEVEL='exploration',
-    ARMS=[(c16, 1.0)],
+    ARMS=[(c16, 0.8), (c16s, 0.2)],
     TIERS={'quick': {'runs': 4000, 'wall_cap': 100, 'minimise_budget': 30},
            'thorough': {'runs': 100000, 'wall_cap': 800, 'minimise_budget': 90}},
     RULE='each run = one seeded history of operations on function items: typed random programs over the mini-language '
